@@ -189,6 +189,7 @@ func checkC12(c *Ctx) {
 	checkReplyChannels(c, rels)
 	kids := checkStopWiring(c)
 	checkJoinWaits(c, sites, runs, kids)
+	checkWaitForGraph(c, runs)
 	checkGoroutineInventory(c, rels, runs)
 	checkRunStartedOnce(c, runs)
 	checkBuilderFlows(c) // context cancellation can only stop what was built with the configured context
